@@ -35,13 +35,15 @@ def jsonOfVal : Val Float → Json
   | .pos (some p) => jsonOfV3 p
 
 /-- per op: return value, the goto commands the provider received during the op (oldest first),
-    and how often the protocol's own handle_telemetry ran during it -/
+    how often the protocol's own handle_telemetry ran during it, and the number of trip closures in
+    the telemetry chain after it -/
 def outputs (s : RT Float) : List (RT Float × Val Float) → List Json
   | [] => []
   | (s', v) :: rest =>
     let newCmds := (s'.cmds.take (s'.cmds.length - s.cmds.length)).reverse
     Json.mkObj [("ret", jsonOfVal v), ("cmds", Json.arr (newCmds.map jsonOfV3).toArray),
-                ("own", toJson (s'.ownCalls - s.ownCalls))] :: outputs s' rest
+                ("own", toJson (s'.ownCalls - s.ownCalls)),
+                ("h", toJson ((s'.chains .telemetry).length - 1))] :: outputs s' rest
 
 /-- RandomMobilityPlugin histories: ops are ["initiate"] | ["finish"] | ["tel", pos] | ["travel"]
     | ["ongoing"] | ["target"]; `draws` is the stream `random.random()` will produce -/
@@ -53,7 +55,6 @@ def run (j : Json) : Except String Json := do
   let r := RandomTrip.run cfg draws RT.init ops
   pure (Json.mkObj [("results", Json.arr (outputs RT.init r.2).toArray),
                     ("used", toJson r.1.used),
-                    ("exhausted", toJson (decide (r.1.used > drawsA.size))),
-                    ("handlers", toJson ((r.1.chains .telemetry).length - 1))])
+                    ("exhausted", toJson (decide (r.1.used > drawsA.size)))])
 
 end RandomTripDriver
